@@ -242,7 +242,7 @@ func replay(c *ev.Ctx) {
 	case !finished:
 		c.Violation(fmt.Sprintf("hang [%s]", w.Op), w)
 	case acc == nil:
-		c.Violation(fmt.Sprintf("panic@%s: %s [%s]", site, ev.MsgClass(msg), w.Op), w)
+		c.Violation(fmt.Sprintf("panic@%s: %s [%s]", site, certs.MsgClass(msg), w.Op), w)
 	default:
 		c.Transitions.Add(acc.Cnt["ops"])
 		for s, v := range acc.Viol {
